@@ -288,6 +288,10 @@ def run(ctx, rep):
                    key="C15.undisturbed|compile_depth|#%d" % n_rec)
     rep.floor("C15.recursive compile_depth calls", n_rec, 2)
     fold_keeps_operands(F, rep)
+    # "their values are not disturbed by the evaluation of later siblings": an operand that waits in a register while its siblings run
+    # (store_fast / store_skip park it) has to be a value, not a view of the slot it was read from - the sibling may write that slot
+    from props import C08 as _c08
+    _c08.no_view_stored(F, rep, ctx, rule="C15.parked-by-value")
 
 
 def fold_keeps_operands(F, rep):
